@@ -644,9 +644,30 @@ Proof.
   split; intros [H1 H2]; (split; [lia | exact H2]).
 Qed.
 
-(* a Delaunay state has no vertex in conflict with any face: inserting q = an existing vertex position conflicts nothing *)
 Corollary conflict_faces_nodup : forall s pts q, NoDup (conflict_faces s pts q).
 Proof. intros s pts q. unfold conflict_faces. apply NoDup_filter, seq_NoDup. Qed.
+
+(* in a Delaunay state no face is in conflict with the position of an existing vertex *)
+Corollary delaunay_no_conflict_at_vertex : forall s pts v,
+  Delaunay s pts -> vertex s v -> conflict_faces s pts (pos pts v) = [].
+Proof.
+  intros s pts v HD Hv. destruct (conflict_faces s pts (pos pts v)) as [| f t] eqn:E; [reflexivity |].
+  assert (Hin : In f (conflict_faces s pts (pos pts v))) by (rewrite E; left; reflexivity).
+  apply conflict_faces_spec in Hin. destruct Hin as [Hf Hc]. specialize (HD f v Hf Hv). lia.
+Qed.
+
+(* C01 <-> C18: in a Delaunay state with counter-clockwise faces no site is closer to a Voronoi vertex (the circumcentre
+   a + (ux,uy)/dd of an inner face) than the three sites of that face; distances scaled by dd *)
+Corollary delaunay_voronoi_vertex_nearest : forall s pts f v ux uy dd,
+  Delaunay s pts -> FacesCcw s pts -> inner_face s f -> vertex s v ->
+  cc_num (tri_a s pts f) (tri_b s pts f) (tri_c s pts f) = (ux, uy, dd) ->
+  ux * ux + uy * uy <=
+  (dd * (fst (pos pts v) - fst (tri_a s pts f)) - ux) ^ 2 + (dd * (snd (pos pts v) - snd (tri_a s pts f)) - uy) ^ 2.
+Proof.
+  intros s pts f v ux uy dd HD HC Hf Hv Hcc.
+  destruct (delaunay_iff_no_site_closer _ _ _ (pos pts v) _ _ _ Hcc (HC f Hf)) as [_ H2].
+  cbv zeta in H2. apply H2. apply HD; assumption.
+Qed.
 
 Print Assumptions circumcenter_equidistant.
 Print Assumptions delaunay_iff_no_site_closer.
